@@ -44,3 +44,27 @@ Definition max_erosion (minRadius maxDistance : Q) : Q := minRadius - maxDistanc
 
 (* pruning.visibilityBound: distance + camera offset + radius (hyp = hypot(maxCameraX, maxCameraY) from the code) *)
 Definition visibility_bound (visibleDistance hyp maxRadius : Q) : Q := visibleDistance + hyp + maxRadius.
+
+(* ---- MeshVolumeRegion._bufferOverapproximate, fast path (pitch >= 1):
+     bounds = mesh.bounds; midpoint = mean(bounds); extents = diff(bounds) + 2 * minBuffer;
+     BoxRegion(position = midpoint, dimensions = extents).
+   One axis: the bounding interval [lo, hi] becomes the box axis (midpoint, extent); a BoxRegion with that
+   position / dimension occupies [mid - ext/2, mid + ext/2] on the axis.  Points are lists of coordinates
+   (any dimension; the code uses 3). *)
+Definition box_mid (lo hi : Q) : Q := (lo + hi) / 2.
+Definition box_ext (lo hi b : Q) : Q := (hi - lo) + 2 * b.
+Definition buffer_box (bounds : list (Q * Q)) (b : Q) : list (Q * Q) :=
+  map (fun lh => (box_mid (fst lh) (snd lh), box_ext (fst lh) (snd lh) b)) bounds.
+(* the seeded variant of the class "grown too little": [k] * b added to the extent in total *)
+Definition buffer_box_k (k : Q) (bounds : list (Q * Q)) (b : Q) : list (Q * Q) :=
+  map (fun lh => (box_mid (fst lh) (snd lh), (snd lh - fst lh) + k * b)) bounds.
+
+(* spec side *)
+Definition in_bounds (bounds : list (Q * Q)) (p : list Q) : Prop :=
+  Forall2 (fun lh x => fst lh <= x <= snd lh) bounds p.
+Definition in_box (box : list (Q * Q)) (p : list Q) : Prop :=
+  Forall2 (fun me x => fst me - snd me / 2 <= x <= fst me + snd me / 2) box p.
+Definition sup_within (b : Q) (p q : list Q) : Prop := Forall2 (fun x y => Qabs (y - x) <= b) p q.
+Definition sqdist3 (p q : Q * Q * Q) : Q :=
+  let '(x1, x2, x3) := p in let '(y1, y2, y3) := q in
+  (y1 - x1) * (y1 - x1) + (y2 - x2) * (y2 - x2) + (y3 - x3) * (y3 - x3).
